@@ -10,6 +10,7 @@ Proof.
   - unfold WF. cbn. constructor.
   - apply scan_repair_wf. exact Hw.
   - exact Hw.
+  - exact Hw.
 Qed.
 
 Theorem xwf_reachable : forall ops, WF (xrun empty_wallet ops).
@@ -28,6 +29,7 @@ Proof.
   - apply fresh_empty.
   - apply scan_repair_fresh. exact Hf.
   - destruct Hf as [A B]. split; [exact A|exact B].
+  - exact Hf.
 Qed.
 
 Theorem xfresh_reachable : forall ops, Fresh (xrun empty_wallet ops).
